@@ -268,7 +268,7 @@ class Tr:
         if v.kind == "lean":
             return v
         if v.kind == "tuple":
-            items = [self.lean(x) for x in v.items]
+            items = [V("Unit", "()") if x.kind == "none" else self.lean(x) for x in v.items]   # `None` as a tuple component: NoneType's only value
             return V(T(*[x.ty for x in items]), "(" + ", ".join(x.code for x in items) + ")")
         raise Refuse(f"a {v.kind} value where a Lean {what} is needed")
 
@@ -340,6 +340,10 @@ class Tr:
             if isinstance(spec, tuple) and spec and spec[0] == "lit":
                 if node is not None and ast.unparse(node) != spec[1]:
                     return No(f"keyword `{name}` must be `{spec[1]}`")
+                continue
+            if isinstance(spec, tuple) and spec and spec[0] == "reqlit":
+                if node is None or ast.unparse(node) != spec[1]:
+                    return No(f"keyword `{name}={spec[1]}` is required")
                 continue
             if node is None:
                 return No(f"keyword `{name}` is required")
@@ -591,8 +595,10 @@ class Tr:
         v = self.ex(n.value)
         if isinstance(n.slice, ast.Slice):
             s = n.slice
+            if s.step is None and s.lower is not None and s.upper is None:
+                return self.match_prim("slice_from", [(v, n.value), (self.ex(s.lower), s.lower)], what=ast.unparse(n)[:60])
             if s.step is not None or s.lower is not None or s.upper is None:
-                raise Refuse("slice other than `[:e]`")
+                raise Refuse("slice other than `[:e]` / `[e:]`")
             return self.match_prim("slice_to", [(v, n.value), (self.ex(s.upper), s.upper)], what=ast.unparse(n)[:60])
         return self.match_prim("sub", [(v, n.value), (self.ex(n.slice), n.slice)], what=ast.unparse(n)[:60])
 
@@ -637,6 +643,10 @@ class Tr:
             return V(ret, code)
         f = n.func
         ftext = ast.unparse(f)
+        # ---- partial(self.<generated method>, kw=e, …): the method with those parameters fixed, as a function value
+        if isinstance(f, ast.Name) and f.id in getattr(self.sheet, "PARTIAL_FUNCS", ()) and f.id not in self.env:
+            self.need_root(f.id)
+            return self.partial_call(n)
         # ---- vmap(f)(args) / eqx.filter_vmap(f)(args)
         if isinstance(f, ast.Call) and ast.unparse(f.func) in self.sheet.VMAP_FUNCS and len(f.args) == 1 and not f.keywords:
             self.need_root(ast.unparse(f.func))
@@ -687,6 +697,37 @@ class Tr:
         # ---- library
         self.need_root(ftext)
         return self.match_prim(f"call:{ftext}", self.args_of(n), n.keywords, what=text[:60])
+
+    def partial_call(self, n):
+        text = ast.unparse(n)[:60]
+        if len(n.args) != 1 or any(k.arg is None for k in n.keywords) or not isinstance(n.args[0], ast.Attribute):
+            raise Refuse(f"`{text}`: only `partial(<obj>.<generated method>, kw=e, …)` is in the subset")
+        m = n.args[0]
+        recv = self.lean(self.ex(m.value))
+        head = recv.ty[0] if isinstance(recv.ty, tuple) else recv.ty
+        info = self.gen.methods.get((head, m.attr))
+        if info is None or info["prop"] or info["monadic"] or info["tyvars"]:
+            raise Refuse(f"`{text}`: `{m.attr}` is not a generated pure method of {head}")
+        params = info["params"][1:]                      # without the receiver
+        names = [p for p, _ in params]
+        fixed = {}
+        for k in n.keywords:
+            if k.arg not in names or k.arg in fixed or dict(params)[k.arg] == UNUSED:
+                raise Refuse(f"`{text}`: keyword `{k.arg}`")
+            fixed[k.arg] = paren(self.coerce(self.ex(k.value), dict(params)[k.arg]).code)
+        free, codes = [], []
+        for p, t in params:
+            if t == UNUSED:
+                raise Refuse(f"`{text}`: `{m.attr}` has an untyped parameter `{p}`")
+            if p in fixed:
+                codes.append(fixed[p])
+            else:
+                free.append((f"a{len(free)}", t))
+                codes.append(free[-1][0])
+        if not free:
+            raise Refuse(f"`{text}`: every parameter is fixed")
+        body = " ".join([info["lean"]] + (["W"] if info["usesW"] else []) + [paren(recv.code)] + codes)
+        return V(F([t for _, t in free], info["ret"]), f"fun {' '.join(a for a, _ in free)} => {body}")
 
     def call_gen(self, info, args, kws, what=""):
         """call of a generated function / method (`args` starts with the receiver for methods)"""
@@ -797,6 +838,8 @@ class Tr:
             return self.bind_name(tgt.id, V(kind="dict", items=items))
         if isinstance(tgt, ast.Name):
             return self.bind_name(tgt.id, self.ex(st.value))
+        if isinstance(tgt, ast.Tuple) and any(isinstance(e, ast.Tuple) for e in tgt.elts):
+            return self.destructure(tgt, self.ex(st.value), ast.unparse(st.value)[:50])
         if isinstance(tgt, ast.Tuple) and all(isinstance(e, ast.Name) for e in tgt.elts):
             v = self.ex(st.value)
             if v.kind == "lean" and isinstance(v.ty, tuple) and v.ty[0] == "Tup":
@@ -816,6 +859,29 @@ class Tr:
                 self.bind_name(nm, x)
             return
         raise Refuse(f"assignment target `{ast.unparse(tgt)}`")
+
+    def destructure(self, tgt, v, what):
+        """nested tuple target `(a, _), _ = e` on a value of a (nested) product type; a target named `_` discards its component
+        (and `_` becomes undefined: a later read of it is refused)"""
+        v = self.lean(v)
+        t = v if re.fullmatch(r"t\d+", v.code) else self.emit_let(self.tmp(), v, ascribe=False)
+        names = [x.id for x in ast.walk(tgt) if isinstance(x, ast.Name) and x.id != "_"]
+        if len(names) != len(set(names)):
+            raise Refuse(f"a name is bound twice in the target `{ast.unparse(tgt)}`")
+
+        def go(pat, ty, code):
+            if isinstance(pat, ast.Name):
+                if pat.id == "_":
+                    self.env.pop("_", None)
+                    return
+                self.bind_name(pat.id, V(ty, code))
+            elif isinstance(pat, ast.Tuple) and isinstance(ty, tuple) and ty[0] == "Tup" and len(ty) - 1 == len(pat.elts):
+                for i, (p, pt) in enumerate(zip(pat.elts, ty[1:])):
+                    go(p, pt, proj(code, i, len(pat.elts)))
+            else:
+                raise Refuse(f"unpacking `{what}` of type {ty} into `{ast.unparse(pat)}`")
+
+        go(tgt, t.ty, t.code)
 
     def raise_term(self, st):
         e = st.exc
@@ -1266,7 +1332,7 @@ class Gen:
         return {"text": text, "errors": errors, "targets": [i.lean for i in sheet.ITEMS]}
 
 
-SHEETS = ["targets_losses", "targets_dist_public"]
+SHEETS = ["targets_losses", "targets_dist_public", "targets_net"]
 
 
 def generate(repo: str) -> dict:
